@@ -122,7 +122,7 @@ def _unescape(s):
 
 
 def tlc(module, cfg, workers=None, timeout=600, simulate=None, depth=None, seed=None, files=None,
-        constants=None, dfs=False, coverage=False, heap=None, extra=None, allow_fail=False, name=None):
+        constants=None, dfs=False, coverage=False, heap=None, extra=None, allow_fail=False, name=None, xss="64m"):
     """Run TLC on spec/<module>.tla with config spec/cfg/<cfg> in a scratch copy of spec/.
 
     files: {name: content} extra files written next to the spec (e.g. recorded traces).
@@ -142,7 +142,7 @@ def tlc(module, cfg, workers=None, timeout=600, simulate=None, depth=None, seed=
     open(os.path.join(d, "run.cfg"), "w").write(cfgtext)
     for k, v in (files or {}).items():
         open(os.path.join(d, k), "w").write(v)
-    jopts = ["-XX:+UseParallelGC", "-Xss64m"]
+    jopts = ["-XX:+UseParallelGC", "-Xss%s" % xss]
     if heap:
         jopts.append("-Xmx%s" % heap)
     if dfs:
